@@ -17,6 +17,9 @@ var straceSyscalls = "openat,open,creat,unlink,unlinkat,rename,renameat,renameat
 var (
 	rxStraceLine = regexp.MustCompile(`^(\d+)\s+(\w+)\((.*)\)\s+=\s+(-?\d+)`)
 	rxQuoted     = regexp.MustCompile(`"((?:[^"\\]|\\.)*)"`)
+	// a directory descriptor argument as `strace -y` prints it, followed by the path it qualifies:
+	// 10</abs/dir>, "name"   or   AT_FDCWD</abs/cwd>, "name"
+	rxAtPath = regexp.MustCompile(`(?:AT_FDCWD|\d+)<((?:[^>\\]|\\.)*)>,\s*"((?:[^"\\]|\\.)*)"`)
 )
 
 type fsMutation struct {
@@ -27,7 +30,9 @@ type fsMutation struct {
 
 // straceArgv prefixes argv with strace writing to logPath.
 func straceArgv(logPath string, argv []string) []string {
-	return append([]string{"strace", "-f", "-qq", "-s", "512", "-e", "trace=" + straceSyscalls, "-o", logPath}, argv...)
+	// -y prints the path behind every descriptor, so that a path relative to a directory descriptor
+	// (os.RemoveAll uses unlinkat(dirfd, "name")) or to a child's own working directory resolves exactly.
+	return append([]string{"strace", "-f", "-qq", "-y", "-s", "512", "-e", "trace=" + straceSyscalls, "-o", logPath}, argv...)
 }
 
 // parseStraceMutations returns the successful calls that create, modify or delete a path.
@@ -56,6 +61,13 @@ func parseStraceMutations(logPath, cwd string) ([]fsMutation, int) {
 		if len(paths) == 0 {
 			continue
 		}
+		// paths qualified by a directory descriptor resolve against that directory, not against cwd
+		dirOf := map[string]string{}
+		for _, ap := range rxAtPath.FindAllStringSubmatch(args, -1) {
+			if !filepath.IsAbs(ap[2]) {
+				dirOf[ap[2]] = strings.TrimSuffix(ap[1], " (deleted)")
+			}
+		}
 		mutating := false
 		var targets []string
 		switch name {
@@ -81,7 +93,11 @@ func parseStraceMutations(logPath, cwd string) ([]fsMutation, int) {
 		}
 		for _, p := range targets {
 			if !filepath.IsAbs(p) {
-				p = filepath.Join(cwd, p)
+				if d, ok := dirOf[p]; ok && filepath.IsAbs(d) {
+					p = filepath.Join(d, p)
+				} else {
+					p = filepath.Join(cwd, p)
+				}
 			}
 			out = append(out, fsMutation{name, filepath.Clean(p), line})
 		}
